@@ -129,29 +129,36 @@ def run_property(prop, tier, replay=None):
             analysed.append({'config': cfg, 'features': sorted(F.features), 'bodies': len(F.bodies), 'tree': th, 'applicable': False})
             continue
         with_floors = cfg == configs[0]
-        ctx = evaluate(mod, prop, tier, cfg, F, deps, th, with_floors)
+        from . import normalize
+        forced = os.environ.get('VERIF_FORCE_NF')
         nf_used = None
-        if unexplained(ctx.results, known_keys) and not os.environ.get('VERIF_NO_NORMAL_FORMS'):
+        if forced:
+            # development aid: judge one named representation only
+            NF, note = normalize.representation(F, forced)
+            ctx = evaluate(mod, prop, tier, cfg, NF if NF is not None else F, deps, th, with_floors)
+            nf_used = forced if NF is not None else None
+        else:
+            ctx = evaluate(mod, prop, tier, cfg, F, deps, th, with_floors)
+        if not forced and unexplained(ctx.results, known_keys) and not os.environ.get('VERIF_NO_NORMAL_FORMS'):
             # re-judge on behaviour-preserving normal forms of the same program before reporting
-            from . import normalize
-            for policy in ('new-helpers', 'all-helpers'):
+            for name in normalize.REPRESENTATIONS:
                 try:
-                    NF, inlined = normalize.normal_form(F, policy)
+                    NF, note = normalize.representation(F, name)
                 except Exception as e:
-                    NF, inlined = None, []
-                    nf_notes.append({'config': cfg, 'policy': policy, 'error': repr(e)})
+                    NF, note = None, 'error %r' % (e,)
                 if NF is None:
+                    nf_notes.append({'config': cfg, 'representation': name, 'skipped': note})
                     continue
                 ctx2 = evaluate(mod, prop, tier, cfg, NF, deps, th, with_floors)
                 bad2 = unexplained(ctx2.results, known_keys)
-                nf_notes.append({'config': cfg, 'policy': policy, 'inlined': inlined[:40], 'violations_as_written': len(unexplained(ctx.results, known_keys)),
+                nf_notes.append({'config': cfg, 'representation': name, 'note': note, 'violations_as_written': len(unexplained(ctx.results, known_keys)),
                                  'violations_on_normal_form': len(bad2)})
                 if os.environ.get('VERIF_SHOW_NF'):
                     for v in bad2:
-                        print('  [normal form %s] %s %s -- %s' % (policy, v['site'], v['inst'], v['detail'][:300]))
+                        print('  [normal form %s] %s %s -- %s' % (name, v['site'], v['inst'], v['detail'][:300]))
                 if not bad2:
                     ctx = ctx2
-                    nf_used = policy
+                    nf_used = name
                     break
         all_results.extend(ctx.results)
         skipped.extend(ctx.skipped)
